@@ -2741,13 +2741,13 @@ class Partitions(Expr):
     def _task(self, index: int):
         return (self.frame._name, self.partitions[index])
 
-    def rewrite(self, kind: str):
+    def rewrite(self, kind: str, rewritten: dict | None = None):
         if kind == "tune":
             # ``partitions`` are positions in the current partitioning of the
             # frame; "tune" rewrites (IO fusion, split_out adjustment) change
             # the number of partitions and must not be applied below us
             return self
-        return super().rewrite(kind)
+        return super().rewrite(kind, rewritten)
 
     def _simplify_down(self):
         from dask_expr import SetIndexBlockwise
